@@ -375,7 +375,8 @@ func (e entry) accepts(tag string, v px.Value) bool {
 	return strings.Contains(keyAccepts[e.key], tag)
 }
 
-var defaultNode = &node{d: parseDir("%s"), sep: ",", hasSep: true, ld: '['}
+// px.DefaultFormat: `%s` with no delimiter of its own — a container formatted by it uses its own default delimiters
+var defaultNode = &node{d: parseDir("%s"), sep: ",", hasSep: true}
 
 func progNode(sep2 string, ld byte) *node {
 	return &node{d: parseDir("%p"), sep: ",", hasSep: true, sep2: sep2, hasSep2: sep2 != "", ld: ld}
@@ -383,12 +384,12 @@ func progNode(sep2 string, ld byte) *node {
 
 // types.DefaultContainerFormats (Object and Type keys never match the values generated here)
 var defaultCF = []entry{
-	{key: "float", n: progNode("", '[')},
-	{key: "numeric", n: progNode("", '[')},
+	{key: "float", n: progNode("", 0)},
+	{key: "numeric", n: progNode("", 0)},
 	{key: "arr", n: progNode(",", '[')},
 	{key: "hash", n: progNode(" => ", '{')},
-	{key: "bin", n: progNode("", '[')},
-	{key: "any", n: progNode("", '[')},
+	{key: "bin", n: progNode("", 0)},
+	{key: "any", n: progNode("", 0)},
 }
 
 func lookup(m []entry, tag string, v px.Value) *node {
